@@ -73,6 +73,8 @@ pub(crate) struct Circuit {
     success_count: usize,
     total_count: usize,
     slow_call_count: usize,
+    // Outcomes (is_failure, is_slow) currently inside the count-based window, oldest first
+    count_records: VecDeque<(bool, bool)>,
     // Time-based window tracking
     call_records: VecDeque<CallRecord>,
 }
@@ -100,6 +102,7 @@ impl Circuit {
             success_count: 0,
             total_count: 0,
             slow_call_count: 0,
+            count_records: VecDeque::new(),
             call_records: VecDeque::new(),
         }
     }
@@ -161,6 +164,37 @@ impl Circuit {
     }
 
     /// Calculate statistics from time-based window.
+    /// Adds one outcome to the count-based window. While closed the window slides: once it
+    /// holds `window_size` outcomes the oldest one is evicted, so the rates are those of the
+    /// last `window_size` calls.
+    fn record_count_based(&mut self, is_failure: bool, is_slow: bool, window_size: usize) {
+        if self.state == CircuitState::Closed && window_size > 0 {
+            while self.count_records.len() >= window_size {
+                if let Some((old_failure, old_slow)) = self.count_records.pop_front() {
+                    if old_failure {
+                        self.failure_count = self.failure_count.saturating_sub(1);
+                    } else {
+                        self.success_count = self.success_count.saturating_sub(1);
+                    }
+                    if old_slow {
+                        self.slow_call_count = self.slow_call_count.saturating_sub(1);
+                    }
+                    self.total_count = self.total_count.saturating_sub(1);
+                }
+            }
+        }
+        self.count_records.push_back((is_failure, is_slow));
+        if is_failure {
+            self.failure_count += 1;
+        } else {
+            self.success_count += 1;
+        }
+        self.total_count += 1;
+        if is_slow {
+            self.slow_call_count += 1;
+        }
+    }
+
     fn time_based_stats(&self) -> (usize, usize, usize, usize) {
         let mut total = 0;
         let mut failures = 0;
@@ -195,11 +229,7 @@ impl Circuit {
         // Update statistics based on window type
         match config.sliding_window_type {
             SlidingWindowType::CountBased => {
-                self.success_count += 1;
-                self.total_count += 1;
-                if is_slow {
-                    self.slow_call_count += 1;
-                }
+                self.record_count_based(false, is_slow, config.sliding_window_size);
             }
             SlidingWindowType::TimeBased => {
                 if let Some(window_duration) = config.sliding_window_duration {
@@ -274,11 +304,7 @@ impl Circuit {
         // Update statistics based on window type
         match config.sliding_window_type {
             SlidingWindowType::CountBased => {
-                self.failure_count += 1;
-                self.total_count += 1;
-                if is_slow {
-                    self.slow_call_count += 1;
-                }
+                self.record_count_based(true, is_slow, config.sliding_window_size);
             }
             SlidingWindowType::TimeBased => {
                 if let Some(window_duration) = config.sliding_window_duration {
@@ -456,6 +482,7 @@ impl Circuit {
         self.failure_count = 0;
         self.total_count = 0;
         self.slow_call_count = 0;
+        self.count_records.clear();
         self.call_records.clear();
     }
 
